@@ -106,10 +106,7 @@ def penalty_violation(problem, coef, grad, strategy="subdiff", lips=None):
     out = []
     if n in RP.SEPARABLE:
         for j in range(p):
-            if lips[j] == 0:
-                out.append(0.0)
-                continue
-            s = 1.0 / lips[j]
+            s = 1.0 / lips[j] if lips[j] != 0 else 1000.0       # zero column: the large step the CD epochs use
             z = coef[j] - s * grad[j]
             u = ref_prox_1d(ps, z, s, j)
             r = abs(coef[j] - u)
@@ -124,10 +121,7 @@ def penalty_violation(problem, coef, grad, strategy="subdiff", lips=None):
     if n in RP.ROW or n == "WeightedGroupL2":
         blocks = [[j] for j in range(p)] if n in RP.ROW else RP.groups_of(ps)
         for k, g in enumerate(blocks):
-            if lips[k] == 0:
-                out.append(0.0)
-                continue
-            s = 1.0 / lips[k]
+            s = 1.0 / lips[k] if lips[k] != 0 else 1000.0       # zero block: the large step the BCD epochs use
             t = coef[g[0]] if n in RP.ROW else coef[g]
             gr = grad[g[0]] if n in RP.ROW else grad[g]
             z = t - s * gr
